@@ -17,8 +17,7 @@ CKS_VARIANTS = ['U8', 'U16', 'U32', 'U64', 'I8', 'I16', 'I32', 'I64']
 
 
 def rust_rt():
-    cd = build.cache_dir()
-    rt = os.path.join(cd, 'rust_rt')
+    rt = build.shared_dir('rust_rt', glob.glob(os.path.join(build.VERIF, 'runtimes', 'rust', '*.rs')))
     if os.path.exists(os.path.join(rt, 'DONE')):
         return rt
     shutil.rmtree(rt, ignore_errors=True)
